@@ -19,6 +19,23 @@ def natValue (base : Nat) (s : List Nat) : Nat := valAcc base 0 s
 /-- Every character is a digit (`0-9`, `a-z`, `A-Z`) of value `< base`. -/
 def ValidDigits (base : Nat) (s : List Nat) : Prop := ∀ c ∈ s, ∃ d, digit? c = some d ∧ d < base
 
+/-- The digit switch (`'0'..'9'`, then `'a' <= lower(c) <= 'z'` with `lower(c) = c|32`) recognises
+exactly `0-9`, `a-z`, `A-Z` with the usual values — all 256 bytes, kernel evaluation. -/
+theorem digit?_classes : ∀ c, c < 256 →
+    digit? c =
+      if 48 ≤ c ∧ c ≤ 57 then some (c - 48)          -- '0'..'9'
+      else if 97 ≤ c ∧ c ≤ 122 then some (c - 87)    -- 'a'..'z'
+      else if 65 ≤ c ∧ c ≤ 90 then some (c - 55)     -- 'A'..'Z'
+      else none := by
+  decide +kernel
+
+theorem natValue_nil (base : Nat) : natValue base [] = 0 := rfl
+
+/-- `natValue` is positional notation: appending a digit multiplies by the base and adds it. -/
+theorem natValue_snoc (base : Nat) (s : List Nat) (c : Nat) :
+    natValue base (s ++ [c]) = natValue base s * base + digitOf c := by
+  simp [natValue, valAcc, List.foldl_append]
+
 /-! ### the two overflow tests -/
 
 theorem maxValOf_eq : ∀ bits, bits < 65 → maxValOf bits = 2 ^ bits - 1 := by decide
@@ -327,6 +344,133 @@ theorem parseUint_base0_syntax (s pre post : List Nat) (c bits : Nat) (hbits : b
   unfold natValue
   by_cases hle : valAcc (base0Prefix s).1 0 (stripUnderscores pre) ≤ 2 ^ effBits bits - 1 <;>
     simp [hle, finish]
+
+/-! ### complete characterisation -/
+
+/-- `c` is a digit of value `< base`. -/
+def okDigit (base c : Nat) : Bool :=
+  match digit? c with
+  | some d => d < base
+  | none => false
+
+/-- `c` is acceptable to the loop under `base == 0`: an underscore or a digit `< base`. -/
+def okChar0 (base c : Nat) : Bool := c == 95 || okDigit base c
+
+theorem dropWhile_head_false (p : Nat → Bool) : ∀ l : List Nat, ∀ c post,
+    l.dropWhile p = c :: post → p c = false := by
+  intro l
+  induction l with
+  | nil => intro c post h; simp at h
+  | cons a l ih =>
+    intro c post h
+    by_cases ha : p a = true
+    · simp only [List.dropWhile_cons, ha, if_true] at h
+      exact ih c post h
+    · have ha' : p a = false := by simpa using ha
+      simp only [List.dropWhile_cons, ha', Bool.false_eq_true, if_false, List.cons.injEq] at h
+      rw [← h.1]; exact ha'
+
+theorem takeWhile_all (p : Nat → Bool) : ∀ (l : List Nat), ∀ c ∈ l.takeWhile p, p c = true := by
+  intro l
+  induction l with
+  | nil => intro c hc; simp at hc
+  | cons a l ih =>
+    intro c hc
+    by_cases ha : p a = true
+    · simp only [List.takeWhile_cons, ha, if_true, List.mem_cons] at hc
+      rcases hc with rfl | hc
+      · exact ha
+      · exact ih c hc
+    · have ha' : p a = false := by simpa using ha
+      simp [ha'] at hc
+
+theorem okDigit_valid {base : Nat} {l : List Nat} (h : ∀ c ∈ l, okDigit base c = true) :
+    ValidDigits base l := by
+  intro c hc
+  have := h c hc
+  unfold okDigit at this
+  cases hd : digit? c with
+  | none => simp [hd] at this
+  | some d => exact ⟨d, rfl, by simpa [hd] using this⟩
+
+theorem badChar_of_not_okDigit {base c : Nat} (h : okDigit base c = false) : BadChar false base c := by
+  refine ⟨by simp, ?_⟩
+  intro d hd
+  simp only [okDigit, hd, decide_eq_false_iff_not, Nat.not_lt] at h
+  exact h
+
+theorem badChar_of_not_okChar0 {base c : Nat} (h : okChar0 base c = false) : BadChar true base c := by
+  simp only [okChar0, Bool.or_eq_false_iff, beq_eq_false_iff_ne, ne_eq] at h
+  refine ⟨by simp [h.1], ?_⟩
+  intro d hd
+  have h2 := h.2
+  simp only [okDigit, hd, decide_eq_false_iff_not, Nat.not_lt] at h2
+  exact h2
+
+theorem parseUint_total_explicit (s : List Nat) (base bits : Nat)
+    (hb : 2 ≤ base) (hb' : base ≤ 36) (hbits : bits ≤ 64) (hne : s ≠ []) :
+    parseUint s (base : Int) (bits : Int) =
+      if natValue base (s.takeWhile (okDigit base)) ≤ 2 ^ effBits bits - 1 then
+        if (s.takeWhile (okDigit base)).length < s.length then (0, .syntax)
+        else (natValue base s, .ok)
+      else (2 ^ effBits bits - 1, .range) := by
+  have hsplit := List.takeWhile_append_dropWhile (p := okDigit base) (l := s)
+  have hv := okDigit_valid (takeWhile_all (okDigit base) s)
+  cases hdw : s.dropWhile (okDigit base) with
+  | nil =>
+    rw [hdw, List.append_nil] at hsplit
+    rw [hsplit] at hv ⊢
+    rw [parseUint_explicit_base s base bits hb hb' hbits hne hv]
+    simp
+  | cons c post =>
+    have hc := badChar_of_not_okDigit (dropWhile_head_false _ s c post hdw)
+    rw [hdw] at hsplit
+    have hlen : (s.takeWhile (okDigit base)).length < s.length := by
+      have := congrArg List.length hsplit
+      simp only [List.length_append, List.length_cons] at this
+      omega
+    conv => lhs; rw [← hsplit]
+    rw [parseUint_explicit_syntax _ post c base bits hb hb' hbits hv hc]
+    simp [hlen]
+
+theorem parseUint_total_base0 (s : List Nat) (bits : Nat) (hbits : bits ≤ 64) (hne : s ≠ []) :
+    parseUint s 0 (bits : Int) =
+      let b := (base0Prefix s).1
+      let body := (base0Prefix s).2
+      let pre := body.takeWhile (okChar0 b)
+      if natValue b (stripUnderscores pre) ≤ 2 ^ effBits bits - 1 then
+        if pre.length < body.length then (0, .syntax)
+        else if body.contains 95 = true ∧ underscoreOK s = false then (0, .syntax)
+        else (natValue b (stripUnderscores body), .ok)
+      else (2 ^ effBits bits - 1, .range) := by
+  simp only []
+  have hsplit := List.takeWhile_append_dropWhile (p := okChar0 (base0Prefix s).1) (l := (base0Prefix s).2)
+  have hall := takeWhile_all (okChar0 (base0Prefix s).1) (base0Prefix s).2
+  have hv : ValidDigits (base0Prefix s).1
+      (stripUnderscores ((base0Prefix s).2.takeWhile (okChar0 (base0Prefix s).1))) := by
+    apply okDigit_valid
+    intro c hc
+    simp only [stripUnderscores, List.mem_filter, bne_iff_ne, ne_eq] at hc
+    have := hall c hc.1
+    simp only [okChar0, Bool.or_eq_true, beq_iff_eq] at this
+    rcases this with h | h
+    · exact absurd h hc.2
+    · exact h
+  cases hdw : (base0Prefix s).2.dropWhile (okChar0 (base0Prefix s).1) with
+  | nil =>
+    rw [hdw, List.append_nil] at hsplit
+    rw [hsplit] at hv ⊢
+    rw [parseUint_base0 s bits hbits hne hv]
+    simp
+  | cons c post =>
+    have hc := badChar_of_not_okChar0 (dropWhile_head_false _ _ c post hdw)
+    rw [hdw] at hsplit
+    have hlen : ((base0Prefix s).2.takeWhile (okChar0 (base0Prefix s).1)).length < (base0Prefix s).2.length := by
+      have := congrArg List.length hsplit
+      simp only [List.length_append, List.length_cons] at this
+      omega
+    rw [parseUint_base0_syntax s _ post c bits hbits hsplit.symm hv hc]
+    simp [hlen]
 
 /-! ### argument checks -/
 
